@@ -9,7 +9,7 @@ import ast
 import z3
 
 from . import state as st
-from .values import (FIN, NAN, NINF, NONE, PINF, Base, Mode, SArr, SBool, SFloat, SFunc, SInt, SList, SNone,
+from .values import (FIN, NAN, NINF, NONE, PINF, Base, GList, Mode, SArr, SBool, SFloat, SFunc, SInt, SList, SNone,
                      SRecord, SStr, STuple, Unsupported, And, Implies, Ite, Not, Or, exists, forall, fresh_name,
                      fsqrt, int_sort, merge_values, to_bool, to_float, to_int)
 
@@ -479,6 +479,8 @@ def seq_len(s, v):
     if isinstance(v, SArr):
         return v.length()
     if isinstance(v, SList):
+        if isinstance(s.lists[v.lid], GList):
+            return s.lists[v.lid].n
         return SInt(len(s.lists[v.lid]))
     if isinstance(v, STuple):
         return SInt(len(v))
@@ -517,6 +519,25 @@ def call_method(eng, s, fr, bm, args, kwargs, lineno, node):
             raise Unsupported(f"method {obj.cls}.{name}")
         a = _bind_args(eng, s, fr, c, node, [obj])
         return eng.call_contract(c, a, s, fr, lineno)
+    if isinstance(obj, SList) and isinstance(s.lists[obj.lid], GList):
+        g = s.lists[obj.lid]
+        if name == 'append':
+            s.lists[obj.lid] = g.append(args[0])
+            return NONE
+        if name == 'pop' and not args:
+            eng.oblige(fr, s, 'safety', 'pop-from-non-empty-list', g.n > 0, lineno)
+            v, s.lists[obj.lid] = g.pop()
+            return v
+        if name == 'extend':
+            other = args[0]
+            extra = s.lists[other.lid] if isinstance(other, SList) else other.items
+            if isinstance(extra, GList):
+                raise Unsupported("extend by a list of symbolic length")
+            for x in extra:
+                g = g.append(x)
+            s.lists[obj.lid] = g
+            return NONE
+        raise Unsupported(f"list method {name} on a list of symbolic length")
     if isinstance(obj, SList):
         items = list(s.lists[obj.lid])
         if name == 'append':
